@@ -382,7 +382,8 @@ def r15_6(cx):
 def r15_7(cx):
     """the containers the deque stands on: every PushTruncateContainer impl in the crate is a thin delegation (one call to the std / smallvec method of the same name, parameters forwarded, nothing else)"""
     prog = cx.prog
-    want = {'push': 'push', 'pop': 'pop', 'truncate': 'truncate', 'slice': 'deref', 'slice_mut': 'deref_mut'}
+    # (the whole-container views: deref / deref_mut, or the inherent as_slice / as_mut_slice they are defined as)
+    want = {'push': ('push',), 'pop': ('pop',), 'truncate': ('truncate',), 'slice': ('deref', 'as_slice'), 'slice_mut': ('deref_mut', 'as_mut_slice')}
     n = 0
     for f in sorted(prog.fns.values(), key=lambda f: f.name):
         if f.crate != 'sliding_deque' or ' as sliding_deque::sliding_deque::PushTruncateContainer>::' not in f.name or f.kind == 'Closure':
@@ -394,11 +395,11 @@ def r15_7(cx):
         cx.count_sites()
         calls = list(f.calls())
         r = f.local_expr(0, []).strip()
-        ok = len(calls) == 1 and calls[0].callee.rsplit('::', 1)[-1] == want[m] and f.is_acyclic() and \
+        ok = len(calls) == 1 and calls[0].callee.rsplit('::', 1)[-1] in want[m] and f.is_acyclic() and \
             [a.strip().kind for a in calls[0].args()] == ['param'] * calls[0].nargs() and [a.strip().info['i'] for a in calls[0].args()] == list(range(1, f.argc + 1)) and \
             (m in ('push', 'truncate') or (r.kind == 'call' and r.pos == calls[0].pos))
         cx.check(ok, 'delegates:' + short(f.name), f, None, '%s forwards to %s(self%s)' % (m, short(calls[0].callee) if calls else '?', ', ..' if f.argc > 1 else ''),
-                 fail_detail='%s does more than forward to the container\'s own %s: %s' % (short(f.name), want[m], [short(c.callee) for c in calls]))
+                 fail_detail='%s does more than forward to the container\'s own %s: %s' % (short(f.name), '/'.join(want[m]), [short(c.callee) for c in calls]))
     cx.check(n >= 10, 'impls-found', None, 'sliding_deque/src/sliding_deque.rs', '%d container methods checked' % n, fail_detail='only %d container methods found' % n)
 
 
